@@ -21,6 +21,14 @@ extern int g_ti[1 + 4 * T_NT]; extern double g_tv[T_NT];
 #define g_tc(n) g_ti[4 + 4 * (n)]
 #define TERM_GHOST_DEFS int g_ti[1 + 4 * T_NT]; double g_tv[T_NT];
 #define TERM_FRAME __CPROVER_object_whole(g_ti), __CPROVER_object_whole(g_tv)
+/* node creation as a contract-replaced call (units compiled with -DCVS_TNODE_CALL) */
+int k_tnode(int op, int a, int b, int c, double val, int isleaf)
+__CPROVER_requires(0 <= g_tn && g_tn < T_NT)
+__CPROVER_assigns(g_ti[0], g_ti[1 + 4 * g_tn], g_ti[2 + 4 * g_tn], g_ti[3 + 4 * g_tn], g_ti[4 + 4 * g_tn], g_tv[g_tn])
+__CPROVER_ensures(g_tn == __CPROVER_old(g_tn) + 1 && __CPROVER_return_value == __CPROVER_old(g_tn))
+__CPROVER_ensures(g_ti[1 + 4 * __CPROVER_return_value] == op && g_ti[2 + 4 * __CPROVER_return_value] == a && g_ti[3 + 4 * __CPROVER_return_value] == b && g_ti[4 + 4 * __CPROVER_return_value] == c)
+__CPROVER_ensures((isleaf ==> g_tv[__CPROVER_return_value] == val) && g_tv[__CPROVER_return_value] >= -1.0e300 && g_tv[__CPROVER_return_value] <= 1.0e300)
+;
 #define TVALID(n) ((n) >= 0 && (n) < g_tn && (n) < T_NT)
 /* node n is the literal/input value x */
 #define P_LEAF(n, x) (TVALID(n) && g_top(n) == T_LEAF && g_tv[n] == (x))
